@@ -41,6 +41,10 @@ func c20Pool() []replLine {
 		{For(";", "", "", "{ "+Print("nope")+" }"), true, "runtime"}, {For(Var("i", "0"), "", "", "{ "+Print("i")+" nil.k; }"), true, "runtime"}, {Fun("lp", "", " "+For(";", "", "", "{ 1 / 0; }")+" ") + " lp();", true, "runtime"},
 		{For(";", "", "", "{ "+Print(`"once"`)+" "+Break()+" }"), true, "print"}, {While(True(), "{ [1][3]; }"), true, "runtime"}, {For(";", "", "i = 1", "{ "+Print("1")+" }"), true, "runtime"},
 		{"7 % 0.5;", true, "echo"}, {Print("2.75 % 0.5"), true, "print"}, {"1 % 0.1;", true, "echo"}, {"1 / 0.0000000001;", true, "echo"}, {"0.5 % 7;", true, "echo"}, {"5 % 0;", true, "runtime"},
+		// a built-in's name cannot be declared, on the first line of a session as on any later one
+		{Var(B["len"], "5") + " " + Print(B["len"]+" + 1"), true, "syntax"}, {Fun(B["abs"], "v", " "+Ret("v")+" ") + " " + Print(BI("abs", "-3")), true, "syntax"},
+		// comment markers inside a string are text
+		{`"http://example.com";`, true, "echo"}, {Print(`"src/*.bn */ x"`), true, "print"}, {`"a /* b */ c" + "//";`, true, "echo"}, {Print(`"//"`) + " // real comment", true, "print"},
 		// echo of containers that hold texts under several names
 		{`({b: "t", a: 1, c: "u", d: [1, "v"], e: nil});`, true, "echo"}, {`[{y: "p", x: "q", w: "r"}, "s"];`, true, "echo"}, {Var("rec", `{nm: "A", ad: "B", ag: 3, tel: "C"}`) + " rec;", true, "echo"},
 		{Var("x", "1"), true, "declaration"}, {"x;", false, "dependent"}, {Print("x"), false, "dependent"},
